@@ -242,3 +242,56 @@ contract(F, "ForestRuleExtractor._find_rule", props=["C11"], lenient=True, alias
              "assert implies(reversible_of(normal_rule), len(potential_rules) == 1 + len(children_of(normal_rule)))"]},
          modifies=["all:Obj('AbstractRule')", "all:List(Obj('Rule'))"],
          notes="candidates are the pack's rules for the classes of the key (A2: deterministic strategies)")
+
+# ---------------------------------------------------------------- C11/C02: RuleDBForest.get_specification_rules
+# rules are handed out only after the extractor's self check (closed, one rule per class, productive, minimal) ran
+klass(F, "RuleDBForest", bases=["RuleDBAbstract"], fields={})
+contract(F, "ForestRuleExtractor.__init__", props=["C11", "C02"], verify=False, aliases=FAL,
+         trusted_reason="restriction to the pumping sub-universe and bucket-by-bucket minimisation (bounded stand-in c11)",
+         params={"self": Obj("ForestRuleExtractor"), "root_label": Int, "ruledb": Obj("RuleDBForest"), "classdb": Obj("ClassDB"),
+                 "pack": Opaque("Pack")}, may_raise=["RuntimeError"], modifies=["*self"], self_invariant=False)
+contract(F, "ForestRuleExtractor.check", props=["C11", "C02"], verify=False, aliases=FAL,
+         trusted_reason="the extractor's self check (asserts on the extracted keys); bounded stand-in c11",
+         params={"self": Obj("ForestRuleExtractor")}, may_raise=["AssertionError"], modifies=[], self_invariant=False)
+contract(F, "ForestRuleExtractor.rules", props=["C11", "C02"], verify=False, aliases=FAL,
+         trusted_reason="turns the extracted keys back into rules (_find_rule is verified above); bounded stand-in c11",
+         params={"self": Obj("ForestRuleExtractor"), "cache": Opaque("Any")}, returns=Opaque("RuleIter"), modifies=[],
+         self_invariant=False)
+contract(F, "RuleDBForest.root_label", source="RuleDBForest.has_specification", props=["C11", "C02"], verify=False,
+         trusted_reason="searcher.start_label through the link to the searcher (RuleDBAbstract property)",
+         params={"self": Obj("RuleDBForest")}, returns=Int, ensures=["result == root_label_of(self)"])
+REG.classes["RuleDBForest"].properties.append("root_label")
+contract(F, "RuleDBForest.get_specification_rules", props=["C11", "C02"], lenient=True, aliases=FAL,
+         params={"self": Obj("RuleDBForest")}, returns=Opaque("RuleIter"),
+         may_raise=["RuntimeError", "AssertionError"],
+         call_requires={
+             "ForestRuleExtractor.__init__": ["root_label == root_label_of(caller_self)", "same(ruledb, caller_self)"],
+             "ForestRuleExtractor.rules": ['called_after("ForestRuleExtractor.check", "ForestRuleExtractor.__init__")',
+                                           'same(self, last_arg("ForestRuleExtractor.check", 0))']},
+         modifies=["all:Obj('ForestRuleExtractor')"],
+         notes="extraction is rooted at the start label; the self check runs before any rule is handed out")
+
+# ---------------------------------------------------------------- C11: _is_productive -- a fresh table fed with exactly the given keys
+contract(F, "TableMethod.__init__", props=["C11", "C03"], verify=False, aliases=FAL,
+         trusted_reason="constructor summary: empty table, gap size 1, empty function",
+         params={"self": Obj("TableMethod")},
+         ensures=["self._gap_size == 1", "len(self._rules) == 0", "fresh(self._function)", "fresh(self._rules)"],
+         modifies=["*self"], self_invariant=False)
+REG.classes["ForestRuleExtractor"].fields.update({"root_label": Int})
+contract(F, "ForestRuleExtractor._is_productive", props=["C11"], lenient=True, aliases=FAL,
+         params={"self": Obj("ForestRuleExtractor"), "rule_keys": Seq(ForestRuleKey)}, returns=Bool,
+         requires=["self.root_label >= 0",
+                   "forall(lambda i: implies(0 <= i and i < len(rule_keys), " + _WFKEY.format(k="rule_keys[i]") + "))"],
+         locals={"ruledb": Obj("TableMethod")},
+         # the verdict is the pumping status of the root in a table that received every given key (and only those), in order
+         loops={0: dict(invariant=["ruledb._gap_size >= 1", "fresh(ruledb)", "len(ruledb._rules) == _i0",
+                                   "forall(lambda j: implies(0 <= j and j < _i0, ruledb._rules[j] == rule_keys[j]))"],
+                        modifies=["all:Obj('TableMethod')", "all:List(ForestRuleKey)", "all:List(List(Opt(Int)))", "all:List(Int)",
+                                  "all:Deque(Int)", "all:Set(Int)", "all:List(Opt(Int))", "all:Obj('Function')",
+                                  "all:Obj('DefaultListInt')"])},
+         call_requires={"TableMethod.is_pumping": ["label == caller_self.root_label", "fresh(self)",
+                                                   "len(self._rules) == len(rule_keys)",
+                                                   "forall(lambda j: implies(0 <= j and j < len(rule_keys), self._rules[j] == rule_keys[j]))"]},
+         modifies=["all:Obj('TableMethod')", "all:List(ForestRuleKey)", "all:List(List(Opt(Int)))", "all:List(Int)",
+                   "all:Deque(Int)", "all:Set(Int)", "all:List(Opt(Int))", "all:Obj('Function')", "all:Obj('DefaultListInt')"],
+         notes="productivity is judged by a fresh table method that was given exactly these keys")
